@@ -968,4 +968,308 @@ theorem walkListNH_local (d : Defaults) (cfg : Cfg) (fnm : Fnm) : ∀ (l : List 
       exact (IHl t).2 hnd
 end
 
+/-! ### A. the hard-link filter is transparent when it never fires -/
+
+def SeenFresh (seen : List ((Nat × Nat) × Path)) (ks : List (Nat × Nat)) : Prop := ∀ k ∈ ks, seenLookup seen k = none
+
+def SeenGrow (seen seen' : List ((Nat × Nat) × Path)) (ks : List (Nat × Nat)) : Prop :=
+  ∀ k, seenLookup seen' k ≠ none → seenLookup seen k ≠ none ∨ k ∈ ks
+
+/-- hard-link detection is off, or the entries to come have pairwise different (dev, ino) none of which was seen -/
+def HlQuiet (cfg : Cfg) (seen : List ((Nat × Nat) × Path)) (ks : List (Nat × Nat)) : Prop :=
+  hasFlag cfg.flags Consts.dirScanNoHardlinks = true ∨ (ks.Nodup ∧ SeenFresh seen ks)
+
+theorem keysNode_mk (n : Name) (s : Stat) (t : List UInt8) (c : List HNode) :
+    keysNode (.mk n s t c) = if isDirMode s.mode then keysList c else [(s.dev, s.ino)] := by
+  simp [keysNode]
+
+theorem keysList_cons (x : HNode) (xs : List HNode) : keysList (x :: xs) = keysNode x ++ keysList xs := by
+  simp [keysList]
+
+theorem iterStep_quiet {cfg : Cfg} {fnm : Fnm} {rel : Path} {dirDev : Nat} {seen : List ((Nat × Nat) × Path)}
+    {name : Name} {s : Stat}
+    (hq : HlQuiet cfg seen (if isDirMode s.mode then [] else [(s.dev, s.ino)])) :
+    (iterStep cfg fnm rel dirDev seen name s).out = (iterNH cfg fnm rel dirDev name s).1 ∧
+    (iterStep cfg fnm rel dirDev seen name s).recurse = (iterNH cfg fnm rel dirDev name s).2 ∧
+    (iterStep cfg fnm rel dirDev seen name s).hlTarget = none ∧
+    SeenGrow seen (iterStep cfg fnm rel dirDev seen name s).seen (if isDirMode s.mode then [] else [(s.dev, s.ino)]) ∧
+    (isDirMode s.mode = true → (iterStep cfg fnm rel dirDev seen name s).seen = seen) := by
+  by_cases hflag : hasFlag cfg.flags Consts.dirScanNoHardlinks = true
+  · have e : iterStep cfg fnm rel dirDev seen name s =
+        { out := (iterNH cfg fnm rel dirDev name s).1, recurse := (iterNH cfg fnm rel dirDev name s).2,
+          hlTarget := none, seen := seen } := by
+      simp only [iterStep, hflag, if_true, iterNH]
+    rw [e]
+    exact ⟨rfl, rfl, rfl, fun k hk => Or.inl hk, fun _ => rfl⟩
+  · rcases hq with hq | ⟨_, hfresh⟩
+    · exact absurd hq hflag
+    · by_cases hdir : isDirMode s.mode = true
+      · have : hlNext seen (nativeEntry rel dirDev name s) = (nativeEntry rel dirDev name s, none, seen) := by
+          simp [hlNext, nativeEntry, hdir]
+        have e : iterStep cfg fnm rel dirDev seen name s =
+            { out := (iterNH cfg fnm rel dirDev name s).1, recurse := (iterNH cfg fnm rel dirDev name s).2,
+              hlTarget := none, seen := seen } := by
+          simp only [iterStep, hflag, if_false, Bool.false_eq_true, this, iterNH]
+        rw [e]
+        exact ⟨rfl, rfl, rfl, fun k hk => Or.inl hk, fun _ => rfl⟩
+      · have hlk : seenLookup seen (s.dev, s.ino) = none := by
+          apply hfresh; simp [hdir]
+        have : hlNext seen (nativeEntry rel dirDev name s)
+            = (nativeEntry rel dirDev name s, none, ((s.dev, s.ino), rel ++ [name]) :: seen) := by
+          simp [hlNext, nativeEntry, hdir, hlk]
+        have e : iterStep cfg fnm rel dirDev seen name s =
+            { out := (iterNH cfg fnm rel dirDev name s).1, recurse := (iterNH cfg fnm rel dirDev name s).2,
+              hlTarget := none, seen := ((s.dev, s.ino), rel ++ [name]) :: seen } := by
+          simp only [iterStep, hflag, if_false, Bool.false_eq_true, this, iterNH]
+        rw [e]
+        refine ⟨rfl, rfl, rfl, ?_, fun h => absurd h hdir⟩
+        intro k hk
+        simp only [hdir, if_false, Bool.false_eq_true, List.mem_singleton]
+        simp only [seenLookup] at hk
+        split at hk
+        · rename_i heq; exact Or.inr heq.symm
+        · exact Or.inl hk
+
+theorem iterNH_hard {cfg : Cfg} {fnm : Fnm} {rel : Path} {dirDev : Nat} {name : Name} {s : Stat} {e2 : Ent}
+    (h : (iterNH cfg fnm rel dirDev name s).1 = some e2) : e2.hard = false := by
+  rw [treeIterStep_out h]
+  simp [applyChanges, nativeEntry]
+
+theorem scanStep_nh (d : Defaults) (cfg : Cfg) (e : Ent) (target : List UInt8) (t : TNode) (links : List Path)
+    (hh : e.hard = false) :
+    scanStep d cfg e none target t links
+      = (scanStepNH d cfg e target t).map (fun r : TNode × Bool => (r.1, links, r.2)) := by
+  simp only [scanStep, scanStepNH]
+  cases hp : parentOf t e.path with
+  | none => rfl
+  | some P =>
+    cases addPath d e (scanExtra cfg e none target) e.path t with
+    | none => rfl
+    | some t' => simp [hh]
+
+theorem SeenGrow.trans {s₁ s₂ s₃ : List ((Nat × Nat) × Path)} {A B : List (Nat × Nat)}
+    (h₁ : SeenGrow s₁ s₂ A) (h₂ : SeenGrow s₂ s₃ B) : SeenGrow s₁ s₃ (A ++ B) := by
+  intro k hk
+  rcases h₂ k hk with h | h
+  · rcases h₁ k h with h' | h'
+    · exact Or.inl h'
+    · exact Or.inr (List.mem_append_left _ h')
+  · exact Or.inr (List.mem_append_right _ h)
+
+theorem SeenGrow.refl (s : List ((Nat × Nat) × Path)) (A : List (Nat × Nat)) : SeenGrow s s A := fun _ hk => Or.inl hk
+
+theorem SeenGrow.mono {s s' : List ((Nat × Nat) × Path)} {A B : List (Nat × Nat)} (h : SeenGrow s s' A)
+    (hAB : ∀ k ∈ A, k ∈ B) : SeenGrow s s' B := by
+  intro k hk
+  rcases h k hk with h' | h'
+  · exact Or.inl h'
+  · exact Or.inr (hAB k h')
+
+/-- the statement of part A for a walk result -/
+def QuietResult (st : St) (r : Option St) (rNH : Option TNode) (ks : List (Nat × Nat)) : Prop :=
+  match r with
+  | none => rNH = none
+  | some st' => rNH = some st'.tree ∧ st'.links = st.links ∧ SeenGrow st.seen st'.seen ks
+
+mutual
+theorem walkNode_quiet (d : Defaults) (cfg : Cfg) (fnm : Fnm) :
+    ∀ (h : HNode) (rel : Path) (dirDev : Nat) (st : St), HlQuiet cfg st.seen (keysNode h) →
+      QuietResult st (walkNode d cfg fnm rel dirDev h st) (walkNodeNH d cfg fnm rel dirDev h st.tree) (keysNode h)
+  | .mk name s target children, rel, dirDev, st, hq => by
+    have IH := walkList_quiet d cfg fnm children (rel ++ [name]) s.dev
+    rw [keysNode_mk] at hq ⊢
+    by_cases hdot : (name = dotName || name = dotDotName) = true
+    · simp only [walkNode, walkNodeNH, hdot, if_true]
+      exact ⟨rfl, rfl, SeenGrow.refl _ _⟩
+    · -- the iterator layers behave as without the filter
+      have hq0 : HlQuiet cfg st.seen (if isDirMode s.mode then [] else [(s.dev, s.ino)]) := by
+        rcases hq with hq | ⟨hnd, hfr⟩
+        · exact Or.inl hq
+        · refine Or.inr ?_
+          by_cases hdir : isDirMode s.mode = true
+          · simp [hdir, SeenFresh]
+          · simp only [hdir, if_false, Bool.false_eq_true] at hnd hfr ⊢
+            exact ⟨hnd, hfr⟩
+      obtain ⟨ho, hr, ht, hg, hsd⟩ := iterStep_quiet (fnm := fnm) (rel := rel) (dirDev := dirDev) (name := name) hq0
+      -- what follows the scan step
+      have tail : ∀ (t' : TNode) (ignored : Bool),
+          QuietResult st
+            (if (isDirMode s.mode && (iterNH cfg fnm rel dirDev name s).2 && !ignored) = true then
+              walkList d cfg fnm (rel ++ [name]) s.dev children
+                { seen := (iterStep cfg fnm rel dirDev st.seen name s).seen, tree := t', links := st.links }
+             else some { seen := (iterStep cfg fnm rel dirDev st.seen name s).seen, tree := t', links := st.links })
+            (if (isDirMode s.mode && (iterNH cfg fnm rel dirDev name s).2 && !ignored) = true then
+              walkListNH d cfg fnm (rel ++ [name]) s.dev children t'
+             else some t')
+            (if isDirMode s.mode = true then keysList children else [(s.dev, s.ino)]) := by
+        intro t' ignored
+        by_cases hcond : (isDirMode s.mode && (iterNH cfg fnm rel dirDev name s).2 && !ignored) = true
+        · simp only [hcond, if_true]
+          have hdir : isDirMode s.mode = true := by
+            simp only [Bool.and_eq_true] at hcond; exact hcond.1.1
+          have hseen := hsd hdir
+          have hqc : HlQuiet cfg (iterStep cfg fnm rel dirDev st.seen name s).seen (keysList children) := by
+            rw [hseen]
+            rcases hq with hq | hq
+            · exact Or.inl hq
+            · simp only [hdir, if_true] at hq; exact Or.inr hq
+          have := IH { seen := (iterStep cfg fnm rel dirDev st.seen name s).seen, tree := t', links := st.links } hqc
+          simp only [hdir, if_true]
+          revert this
+          cases walkList d cfg fnm (rel ++ [name]) s.dev children
+              { seen := (iterStep cfg fnm rel dirDev st.seen name s).seen, tree := t', links := st.links } with
+          | none => exact id
+          | some st' =>
+            rintro ⟨h1, h2, h3⟩
+            refine ⟨h1, h2, ?_⟩
+            rw [hseen] at h3
+            exact h3
+        · simp only [hcond, if_false, Bool.false_eq_true]
+          refine ⟨rfl, rfl, ?_⟩
+          by_cases hdir : isDirMode s.mode = true
+          · rw [hsd hdir]; exact SeenGrow.refl _ _
+          · simp only [hdir, if_false, Bool.false_eq_true] at hg ⊢
+            exact hg
+      simp only [walkNode, walkNodeNH, hdot, if_false, Bool.false_eq_true, ho, hr, ht]
+      cases hout : (iterNH cfg fnm rel dirDev name s).1 with
+      | none => exact tail st.tree false
+      | some e2 =>
+        simp only [scanStep_nh d cfg e2 target st.tree st.links (iterNH_hard hout)]
+        cases scanStepNH d cfg e2 target st.tree with
+        | none => rfl
+        | some r =>
+          obtain ⟨t', ignored⟩ := r
+          exact tail t' ignored
+theorem walkList_quiet (d : Defaults) (cfg : Cfg) (fnm : Fnm) :
+    ∀ (l : List HNode) (rel : Path) (dirDev : Nat) (st : St), HlQuiet cfg st.seen (keysList l) →
+      QuietResult st (walkList d cfg fnm rel dirDev l st) (walkListNH d cfg fnm rel dirDev l st.tree) (keysList l)
+  | [], rel, dirDev, st, _ => by
+    simp only [walkList, walkListNH]
+    exact ⟨rfl, rfl, SeenGrow.refl _ _⟩
+  | h :: hs, rel, dirDev, st, hq => by
+    rw [keysList_cons] at hq ⊢
+    have hqh : HlQuiet cfg st.seen (keysNode h) := by
+      rcases hq with hq | ⟨hnd, hfr⟩
+      · exact Or.inl hq
+      · exact Or.inr ⟨(List.nodup_append.mp hnd).1, fun k hk => hfr k (List.mem_append_left _ hk)⟩
+    have IHn := walkNode_quiet d cfg fnm h rel dirDev st hqh
+    simp only [walkList, walkListNH]
+    revert IHn
+    cases walkNode d cfg fnm rel dirDev h st with
+    | none =>
+      simp only [QuietResult]
+      intro h1; rw [h1]
+    | some st1 =>
+      simp only [QuietResult]
+      rintro ⟨h1, h2, h3⟩
+      rw [h1]
+      have hqs : HlQuiet cfg st1.seen (keysList hs) := by
+        rcases hq with hq | ⟨hnd, hfr⟩
+        · exact Or.inl hq
+        · refine Or.inr ⟨(List.nodup_append.mp hnd).2.1, ?_⟩
+          intro k hk
+          cases hlk : seenLookup st1.seen k with
+          | none => rfl
+          | some v =>
+            exfalso
+            rcases h3 k (by rw [hlk]; simp) with h' | h'
+            · exact h' (hfr k (List.mem_append_right _ hk))
+            · exact (List.nodup_append.mp hnd).2.2 k h' k hk rfl
+      have IHl := walkList_quiet d cfg fnm hs rel dirDev st1 hqs
+      revert IHl
+      cases walkList d cfg fnm rel dirDev hs st1 with
+      | none => simp only [QuietResult]; exact id
+      | some st2 =>
+        simp only [QuietResult]
+        rintro ⟨g1, g2, g3⟩
+        exact ⟨g1, g2.trans h2, h3.trans g3⟩
+end
+
+/-! ### assembly -/
+
+theorem fperm_keys {l₁ l₂ : List HNode} (h : FPerm l₁ l₂) : (keysList l₁).Perm (keysList l₂) := by
+  induction h with
+  | nil => exact List.Perm.refl _
+  | @cons n s t c c' l l' _ _ ihc ihl =>
+    rw [keysList_cons, keysList_cons, keysNode_mk, keysNode_mk]
+    split
+    · exact List.Perm.append ihc ihl
+    · exact List.Perm.append (List.Perm.refl _) ihl
+  | swap a b l =>
+    simp only [keysList_cons, ← List.append_assoc]
+    exact List.Perm.append_right _ List.perm_append_comm
+  | trans _ _ ih₁ ih₂ => exact ih₁.trans ih₂
+
+/-- the walk without the filter does not depend on the order of the entries -/
+theorem walkListNH_fperm (d : Defaults) (cfg : Cfg) (fnm : Fnm) {l₁ l₂ : List HNode} (h : FPerm l₁ l₂)
+    (hwf : WFList l₁) (dirDev : Nat) (t : TNode) :
+    walkListNH d cfg fnm [] dirDev l₁ t = walkListNH d cfg fnm [] dirDev l₂ t := by
+  have h1 := walkListNH_local d cfg fnm l₁ [] dirDev t
+  have h2 := walkListNH_local d cfg fnm l₂ [] dirDev t
+  cases hq : lookup t (cfg.pfx ++ []) with
+  | none =>
+    rw [h1.2 (by intro D hD; rw [hq] at hD; cases hD), h2.2 (by intro D hD; rw [hq] at hD; cases hD)]
+  | some D =>
+    by_cases hD : D.isDir = true
+    · rw [h1.1 D hq hD, h2.1 D hq hD, walkLocalList_fperm d cfg fnm h hwf]
+    · have hD' : D.isDir = false := by simpa using hD
+      rw [h1.2 (by intro D' h'; rw [hq] at h'; cases h'; exact hD'),
+          h2.2 (by intro D' h'; rw [hq] at h'; cases h'; exact hD')]
+
+theorem scanInto_false_eq (d : Defaults) (cfg : Cfg) (fnm : Fnm) (rootDev : Nat) (e : List HNode) (tree : TNode)
+    (links : List Path) (hq : hasFlag cfg.flags Consts.dirScanNoHardlinks = true ∨ NoMultiLink e) :
+    scanInto false d cfg fnm rootDev e tree links
+      = (walkListNH d cfg fnm [] rootDev e tree).map (fun t => (t, links)) := by
+  have hquiet : HlQuiet cfg ([] : List ((Nat × Nat) × Path)) (keysList e) := by
+    rcases hq with hq | hq
+    · exact Or.inl hq
+    · exact Or.inr ⟨hq, fun _ _ => rfl⟩
+  have := walkList_quiet d cfg fnm e [] rootDev { seen := [], tree := tree, links := links } hquiet
+  simp only [scanInto, nativeOrder, Bool.false_eq_true, if_false]
+  revert this
+  cases walkList d cfg fnm [] rootDev e { seen := [], tree := tree, links := links } with
+  | none => intro h; simp only [QuietResult] at h; rw [h]; rfl
+  | some st' =>
+    intro h
+    simp only [QuietResult] at h
+    rw [h.1]
+    simp only [Option.map_some, h.2.1]
+
+/-- scan of the code as pinned, when the hard-link filter cannot fire -/
+theorem scanInto_false_fperm (d : Defaults) (cfg : Cfg) (fnm : Fnm) (rootDev : Nat) {e₁ e₂ : List HNode}
+    (h : FPerm e₁ e₂) (hwf : WFList e₁) (hq : hasFlag cfg.flags Consts.dirScanNoHardlinks = true ∨ NoMultiLink e₁)
+    (tree : TNode) (links : List Path) :
+    scanInto false d cfg fnm rootDev e₁ tree links = scanInto false d cfg fnm rootDev e₂ tree links := by
+  have hq2 : hasFlag cfg.flags Consts.dirScanNoHardlinks = true ∨ NoMultiLink e₂ := by
+    rcases hq with hq | hq
+    · exact Or.inl hq
+    · exact Or.inr ((fperm_keys h).nodup_iff.mp hq)
+  rw [scanInto_false_eq d cfg fnm rootDev e₁ tree links hq, scanInto_false_eq d cfg fnm rootDev e₂ tree links hq2,
+    walkListNH_fperm d cfg fnm h hwf]
+
+/-! ### the repaired iterator's enumeration is one of the enumerations of the same forest -/
+
+theorem fperm_of_perm {l₁ l₂ : List HNode} (h : l₁.Perm l₂) : FPerm l₁ l₂ := by
+  induction h with
+  | nil => exact FPerm.nil
+  | cons x _ ih =>
+    obtain ⟨n, s, t, c⟩ := x
+    exact FPerm.cons (fperm_refl c) ih
+  | swap x y l => exact FPerm.trans (FPerm.swap y x l) (fperm_refl _)
+  | trans _ _ ih₁ ih₂ => exact FPerm.trans ih₁ ih₂
+
+mutual
+theorem fperm_canonNode : ∀ x : HNode, FPerm x.children (sortByName (canonList x.children))
+  | .mk _ _ _ c => FPerm.trans (fperm_canonList c) (fperm_of_perm (sortByName_perm_self (canonList c)).symm)
+theorem fperm_canonList : ∀ l : List HNode, FPerm l (canonList l)
+  | [] => FPerm.nil
+  | .mk n s t c :: xs => by
+    simp only [canonList, canonNode]
+    exact FPerm.cons (fperm_canonNode (.mk n s t c)) (fperm_canonList xs)
+end
+
+theorem fperm_nativeOrder (l : List HNode) : FPerm l (nativeOrder true l) := by
+  simp only [nativeOrder, if_true]
+  exact FPerm.trans (fperm_canonList l) (fperm_of_perm (sortByName_perm_self (canonList l)).symm)
+
 end Sqfs.FsTree
